@@ -92,6 +92,9 @@ class Workbook(object):
         return PyObjV(ws)
 
     def m_save(self, I, args, kwargs):
+        # openpyxl: Workbook.save(filename) writes the workbook to that path
+        saved = I.__dict__.setdefault("_saved_workbooks", {})
+        saved[args[0].key()] = self
         return NONE
 
     def sheet(self, title):
@@ -106,10 +109,20 @@ class TempFile(object):
         return Const("<tempfile>")
 
     def m_seek(self, I, args, kwargs):
+        pos = args[0]
+        if not (isinstance(pos, Num) and pos.const() == 0):
+            raise AnalysisError("temporary file model: seek to %r (only a rewind to 0 is modelled)" % (pos,))
+        self.rewound = True
         return NONE
 
     def m_read(self, I, args, kwargs):
         from .strtree import SFmt
+        if args:
+            raise AnalysisError("temporary file model: read(size)")
+        wb = I.__dict__.get("_saved_workbooks", {}).get(self.get_name(I).key())
+        if wb is None or not getattr(self, "rewound", False):
+            # nothing was saved under this file's name (or the position is at the end): nothing to read
+            return Const("")
         return StrV(SFmt("s", Opaque(("saved workbook bytes",))))
 
 
